@@ -8,6 +8,7 @@ mod gen;
 mod out;
 mod c05;
 mod c08;
+mod c14;
 mod c15;
 
 use gen::Rng;
@@ -67,6 +68,7 @@ fn main() {
     match prop.as_str() {
         "C05" => c05::run(&mut out, &mut rng, tier),
         "C08" => c08::run(&mut out, &mut rng, tier),
+        "C14" => c14::run(&mut out, &mut rng, tier),
         "C15" => c15::run(&mut out, &mut rng, tier),
         _ => {
             eprintln!("unknown property {}", prop);
